@@ -4,6 +4,7 @@ import (
 	"fmt"
 	"math/bits"
 
+	"github.com/pdok/texel/intgeom"
 	"github.com/pdok/texel/morton"
 	"github.com/pdok/texel/pointindex"
 )
@@ -33,7 +34,7 @@ func mustToZPanics(x, y uint) (panicked bool) {
 func checkC17(e *env) {
 	r := e.res
 	r.Rule = "tz: all one-bit and two-bit patterns of (x,y) over bits 0..35, boundary values around 2^32, random 32-bit, random 26..36-bit; " +
-		"gqz: parents with one/two-bit and random 31-bit addresses. Non-trivial = at least two set bits in (x,y) or not encodable; distinct by (x,y)."
+		"gqz: parents with one/two-bit and random 31-bit addresses; index-parents: indexes of depth 20, 31 and 32, one pixel inserted (quarters, centre lines, corners, random), every level must hold exactly its ancestor. Non-trivial = at least two set bits in (x,y) or not encodable; distinct by (x,y)."
 	type pair struct{ x, y uint64 }
 	var cases []pair
 	var bitsXY []pair // single bits as (x,y)
@@ -163,4 +164,51 @@ func checkC17(e *env) {
 		}
 	}
 	above32(e, false)
+	indexParents(e)
+}
+
+// indexParents: the point index files one vertex on every level under the key of its pixel there; the pixel of level l-1 is the parent of the
+// pixel of level l (address halved, key without its two lowest bits). Checked on indexes of depth 20, 31 and exactly 32 (where the top bit of a
+// 64-bit key is in use), in all four quarters of the extent and at its corners: every level must hold exactly the pixel (x >> (depth-l), y >> (depth-l)).
+func indexParents(e *env) {
+	r := e.res
+	for _, depth := range []uint{20, 31, 32} {
+		size := uint64(1) << depth
+		var pts [][2]uint64
+		for _, fx := range []uint64{0, size/4 + 3, size/2 - 1, size / 2, size/2 + size/4 + 5, size - 1} {
+			for _, fy := range []uint64{0, size/4 + 7, size/2 - 1, size / 2, size/2 + size/4 + 1, size - 1} {
+				pts = append(pts, [2]uint64{fx, fy})
+			}
+		}
+		for i := 0; i < e.n(40, 2000); i++ {
+			pts = append(pts, [2]uint64{e.rng.Uint64() % size, e.rng.Uint64() % size})
+		}
+		for _, p := range pts {
+			op := fmt.Sprintf("index of depth %d: insert the pixel (%d, %d), then read every level", depth, p[0], p[1])
+			r.count("index-parents", op, true)
+			verdict := func() (v string) {
+				defer func() {
+					if rec := recover(); rec != nil {
+						v = "panic " + fmt.Sprint(rec)
+					}
+				}()
+				ix := pointindex.XNew(intgeom.Extent{0, 0, int64(size), int64(size)}, depth) // one unit per deepest pixel
+				if err := ix.InsertCoord(int(p[0]), int(p[1])); err != nil {
+					return "refused: " + err.Error()
+				}
+				for l := uint(0); l <= depth; l++ {
+					hot := ix.XHot(l)
+					wx, wy := p[0]>>(depth-l), p[1]>>(depth-l)
+					if len(hot) != 1 || uint64(hot[0][0]) != wx || uint64(hot[0][1]) != wy {
+						return fmt.Sprintf("level %d holds %v, expected the one pixel (%d, %d)", l, hot, wx, wy)
+					}
+				}
+				return "ok"
+			}()
+			if verdict != "ok" {
+				r.violation(Violation{Oracle: "parent-key-is-the-key-without-its-two-lowest-bits", Op: op, Impl: verdict,
+					Detail: "a vertex must be filed on every level under the pixel that contains it; the pixel one level up is the parent of the pixel below"})
+			}
+		}
+	}
 }
